@@ -131,6 +131,28 @@ CHECKS = {
              'Outside: keys > 2 / values > 2 bytes, more than one altered byte, checksum collisions (F5).',
         technique='MIR symbolic execution of writer and reader over a byte-level symbolic file + z3; native byte-flip replay',
     ),
+    'C11': dict(
+        category='model_checking',
+        text='The MIR of Database::recover is executed over a symbolic recovered state: 2 keyspaces with symbolic ids and symbolic persisted/highest seqnos (meta keyspace included), '
+             'a journal of <= 2 batches whose seqnos and keyspace ids are symbolic 64-bit values (ids may or may not resolve; batches may be replayed or skipped). z3 decides on every '
+             'successful path that the next seqno exceeds the seqno of every batch read and the highest seqno of every tree, and that the visible seqno equals the next seqno. '
+             'Counterexamples are replayed natively: 9 pre-reopen histories (journal only, tables only, both, ingested, cleared, tombstones only, deleted keyspace, several marks) through two reopens, '
+             'comparing the counter with the highest seqno any tree reported and reading back writes made after the reopen.',
+        design_ref='DESIGN.md §5 C11',
+        note='Trusted: E8 (lsm-tree reports the maximum seqno of memtables+tables), journal reader by contract (bytes: C03/C15). Outside: > 2 keyspaces / 2 batches per journal, the sealed-journal '
+             'loop of recover_sealed_memtables (same statements; checked separately as part of C04), lsm-tree read path (a higher seqno wins: E2).',
+        technique='MIR symbolic execution of recovery over a symbolic journal/keyspace state + z3 (64-bit bit-vectors); native reopen replay',
+    ),
+    'C12': dict(
+        category='model_checking',
+        text='MIR symbolic execution: every writer touches only its own handle\'s tree and journals under that keyspace\'s id (batch: item i -> keyspace i); writes through a deleted handle return '
+             'KeyspaceDeleted before any lock/journal/tree effect; delete_keyspace flags the handle only after the meta keyspace removal succeeded; MetaKeyspace::remove_keyspace ingests tombstones for the '
+             'id->name key and all stored configuration keys and removes the name; Database::recover (symbolic journal and keyspace ids, as C11) applies a record only to the tree of the keyspace whose id it carries, '
+             'never applies unresolvable records, and leaves the keyspace id counter above every id that occurs in a journal record. Counterexamples are replayed natively with create/write/delete/re-create/reopen histories.',
+        design_ref='DESIGN.md §5 C12',
+        note='Trusted: HashMap/RwLock contract, lsm-tree ingestion as event stub, file removal on last handle drop (F2). Outside: recover_keyspaces directory scan (stubbed in the recover harness), > 2 keyspaces.',
+        technique='MIR symbolic execution + z3 (handle identity, symbolic ids); native lifecycle replay',
+    ),
 }
 
 NOT_YET = {}
